@@ -269,6 +269,9 @@ class World:
             self.rec('C', cbid, self.env.label(event), ok, san(getattr(event, '_value', None)))
             if defuse and ok is False:
                 event.defused = True
+            elif ok is False and cbid.endswith(('1', '3', '5', '7', '9')):
+                # a callback that declines to handle the failure and says so (the flag keeps whatever others decided)
+                event.defused = bool(event.defused)
         cb.cbid = cbid
         return cb
 
